@@ -1,6 +1,7 @@
 """C09 monitor: decides the property on the implementation history (log + virtual timestamps).
 
-For every returned future j (deadline D = virtual time of the submit call + its timeout):
+For every returned future j (deadline D = virtual time at which the future was created, i.e. when the
+delegate's submit() returned, + its timeout):
   early    a cancel() attempt by the job thread at a clock reading <= D
   twice    more than one cancel() attempt by the job thread
   late     j is not done by the end of instant B = max(D + TICK, time its job was appended) and the
@@ -36,6 +37,9 @@ def scan(r, obs):
             calls.pop(th, None)
         elif op == "acq" and obj == "X" and th in calls:
             append_ts[calls[th]] = ts
+        elif op == "deleg.submit" and th in calls:
+            # the returned future is created right after the delegate's submit() returns: its creation time
+            call_ts[calls[th]] = ts
         if o.startswith("r") and o[1:].isdigit() and int(o[1:]) in js:
             j = int(o[1:])
             if op in ("F.set_result", "F.set_exception") and val in (0, 1) and j not in done:
